@@ -7,7 +7,7 @@
 //	   setting of verif/enum/grammar), so updating clauses, CALL forms and parameters appear exactly where a deviation put them
 //	   - at every position the grammar allows, because every reference to a rule is a position of the enumeration.
 //	C  every query of the repository corpora and every single-token deletion / duplication / swap of them.
-//	I  for every text of G (<= 2 deviations) and C that the default context accepts: every insertion of one of 16 updating / CALL
+//	I  for every text of G (<= k-1 deviations) and C that the default context accepts: every insertion of one of 16 updating / CALL
 //	   clauses at every clause boundary (start of each reading clause / WITH / RETURN of the raw parse tree, and the end), and of
 //	   `$p` at every expression position (each oC_Atom replaced; each node pattern and relationship detail given `$p` properties).
 //
@@ -334,9 +334,9 @@ func main() {
 		run.Finish()
 	}
 	run.Set("rule", fmt.Sprintf("all derivations of Cypher.g4 with <= %d deviations per rule in its best (read-only) context and <= %d at every other grammar position; the repository corpora and all "+
-		"single-token deletions/duplications/swaps; for every accepted text with <= 2 deviations or from the corpora, every insertion of %d updating/CALL clauses at every clause boundary and of $p at every "+
+		"single-token deletions/duplications/swaps; for every accepted derivation with <= %d deviations and every accepted corpus text, every insertion of %d updating/CALL clauses at every clause boundary and of $p at every "+
 		"atom / pattern-properties position. distinct_nontrivial counts distinct texts (exact: sharded by hash) that carry a forbidden construct and are syntactically valid for the project's raw parser, "+
-		"i.e. texts only the filters can stop.", k, k-1, len(insertClauses)))
+		"i.e. texts only the filters can stop.", k, k-1, k-1, len(insertClauses)))
 	run.Assume("the raw parse tree of the project's generated parser is the ground truth for 'contains an updating clause / CALL / parameter'")
 	run.Assume("translation uses pgutil.InMemoryKindMapper primed with the kinds of the query; texts the translator rejects or panics on are counted, not judged (C05)")
 	run.Finish()
@@ -344,6 +344,7 @@ func main() {
 
 func explore(s *explorer, k int) {
 	run := s.run
+	insK := k - 1 // insertions are made into the accepted derivations with at most k-1 deviations (and into the corpora)
 	corpus, err := cytext.Corpus()
 	if err != nil {
 		core.Fatalf("corpus: %v", err)
@@ -400,7 +401,7 @@ func explore(s *explorer, k int) {
 		if must != "" {
 			positions[t.Via] = true
 		}
-		s.eval(artefact{Text: t.Text, Origin: "grammar", Marker: must}, must, t.Cost+0 <= 2)
+		s.eval(artefact{Text: t.Text, Origin: "grammar", Marker: must}, must, t.Cost <= insK)
 		return true
 	})
 	run.Add("distinct_texts_grammar", st.Distinct)
